@@ -281,8 +281,48 @@ def SLAST(call):
     return f.attr if isinstance(f, ast.Attribute) else (f.id if isinstance(f, ast.Name) else "")
 
 
+def check_decode_path_pure(repo, rep):
+    """'depending only on the gene at that position' - and on the DECLARATION: every caller of dna_to_hp (the optimizer's fitness
+    worker, the optimizer's report, the backtest's route preparation) hands the strategy what dna_to_hp returns for the declaration it
+    was given; a memo between them must be keyed by everything the decode depends on"""
+    from vlib.purity import Purity
+    rid = "C19-R5"
+    rep.rule(rid, "effect analysis of the decode path: the functions that call helpers.dna_to_hp (and the module-local functions they "
+                  "call) store nothing into module-level state unless the key holds every used parameter whole (a bare name or a wholesale "
+                  "conversion - not a projection such as the parameter names of a declaration)")
+    P = Purity(repo)
+    n = 0
+    for rel in ("jesse/modes/optimize_mode/fitness.py", "jesse/modes/optimize_mode/Optimize.py", "jesse/modes/backtest_mode.py", "jesse/helpers.py"):
+        mod = repo.module(rel)
+        callers = []
+        for f in ast.walk(mod.tree):
+            if isinstance(f, ast.FunctionDef) and (f.name in ("dna_to_hp", "convert_number") or
+                                                   any(isinstance(c, ast.Call) and norm(c.func).split(".")[-1] == "dna_to_hp" for c in ast.walk(f))):
+                callers.append(f)
+        # ... and whoever wraps those inside the module (one level: a memoising wrapper around the decoder)
+        names = {f.name for f in callers}
+        for f in ast.walk(mod.tree):
+            if isinstance(f, ast.FunctionDef) and f not in callers and any(isinstance(c, ast.Call) and norm(c.func).split(".")[-1] in names for c in ast.walk(f)):
+                callers.append(f)
+        for f in callers:
+            P._globals(mod, f)
+            n += 1
+            rep.instance(rid, f"{rel}:{f.name}")
+    seen = set()
+    for f in P.findings:
+        if f.key() in seen or (f.rel, f.func) == ("jesse/helpers.py", "get_config"):
+            continue
+        seen.add(f.key())
+        rep.violation(rid, f"{f.rule}|{f.rel}:{f.func}", f"{f.rel}: {f.func}: {f.what} - the hyperparameters a strategy is given then depend on what was decoded earlier, "
+                                                           f"not only on the gene and the declaration")
+    if n < 4:
+        raise AnalysisError(f"C19-R5: only {n} functions on the decode path found")
+    rep.floor(rid, 4)
+
+
 def run(repo: Repo, rep, tier: str):
     rep.exhaustive = True
+    rep.guarded(check_decode_path_pure, repo, rep)
     rep.assume("decoding is evaluated in exact rational arithmetic (round() is round-half-even as in CPython); float representation error of the division is not modelled")
     rep.guarded(check_convert, repo, rep)
     rep.guarded(check_float_decode_bounded, repo, rep)
